@@ -9,7 +9,7 @@
     ([batch_ok]); the step functions then do what process_batch / commit_batch /
     reclaim do. *)
 From Coq Require Import NArith List Bool.
-From Snel Require Import Model.Shard.
+From Snel Require Import Gen.Params Model.Shard.
 Import ListNotations.
 Open Scope N_scope.
 
@@ -152,3 +152,23 @@ Definition crun (s : shard) (ls : list clabel) : shard := fold_left cstep ls s.
 (** one complete batch, as compaction_worker + handover run it *)
 Definition batch_steps (s : shard) (b : batch) : list clabel :=
   [CWrite b; CIndex b; CLive b (drained (index s) b)].
+
+(** ** output ids within one process lifetime
+
+    [KWayCountPolicy::plan] seeds its allocator from the labels the index holds at
+    the start of the planning round; with [Params.compaction_ids_fresh_in_lifetime]
+    (regenerated from policy.rs: the seed is [remember_labels(..)], i.e. also every
+    label an earlier planning round of this process saw in the index) the allocator
+    starts above every label of this and of every earlier round start of the
+    lifetime, and inside a round it hands out consecutive ids.  The bookkeeping of
+    one lifetime is [labels] - the index labels at every round start so far, empty
+    when the process starts (a crash / restart resets it) - and [routs], the output
+    ids already taken in the CURRENT round.  An output id whose batch did not
+    reach its index entry (an error between output write and index save, without a
+    crash) is in neither list at the next round and can be handed out again. *)
+Definition seen_round_start (labels : list N) (ix : list (N * list N)) : list N := index_labels ix ++ labels.
+Definition seen_batch (routs : list N) (b : batch) : list N := b_out b :: routs.
+
+(** [seen] = [routs ++ labels] *)
+Definition batch_ok_fresh (seen : list N) (ix : list (N * list N)) (k : N) (b : batch) : bool :=
+  batch_ok ix k b && (if compaction_ids_fresh_in_lifetime then negb (memb (b_out b) seen) else true).
